@@ -153,18 +153,13 @@ func c20cached(key string, f func() Point) Point {
 
 // C20MulBaseShift returns [k * 2^shift]B (memoised; k may be negative).
 func C20MulBaseShift(k int64, shift uint) Point {
+	if k < 0 {
+		return Neg(C20MulBaseShift(-k, shift))
+	}
 	key := big.NewInt(k).String() + "<<" + big.NewInt(int64(shift)).String()
 	return c20cached(key, func() Point {
 		s := big.NewInt(k)
-		if k < 0 {
-			s.Neg(s)
-		}
-		s.Lsh(s, shift)
-		p := MulBase(s)
-		if k < 0 {
-			p = Neg(p)
-		}
-		return p
+		return MulBase(s.Lsh(s, shift))
 	})
 }
 
